@@ -220,7 +220,9 @@ type c16Spec struct {
 	twoStatements bool
 	// poolFIFO: sync.Pool shims hand out the oldest item instead of the newest one
 	poolFIFO bool
-	desc     string
+	// listenerCloseErr: the listener's Close reports an error (it is closed all the same)
+	listenerCloseErr bool
+	desc             string
 }
 
 func c16Specs() []c16Spec {
@@ -250,6 +252,8 @@ func c16Specs() []c16Spec {
 			desc: "extended protocol: Parse + Sync twice (the parser is user code too: none starts after Close returned) + Close"},
 		{name: "X15", conns: []c16Conn{{"c1", [][]byte{start, pgproto.Msg('Q', make([]byte, 5000))[:2500]}}, {"c2", [][]byte{start, q}}}, closers: 1,
 			desc: "a client that stops half-way through a message larger than the limit (its body is being skipped) next to a normal one + Close: nobody waits for the rest of that body"},
+		{name: "X16", conns: []c16Conn{{"c1", [][]byte{start, q}}}, closers: 1, secondClose: true, listenerCloseErr: true,
+			desc: "a listener whose Close reports an error (e.g. its owner had closed it already) while a connection is inside a handler + Close + a second Close: the handlers are waited for all the same"},
 		{name: "X8", conns: []c16Conn{{"c1", [][]byte{start, q}}}, closers: 1, acceptFault: true,
 			desc: "the listener fails with an Accept error (Serve returns it) while a connection is inside a handler, then Close"},
 	}
@@ -286,6 +290,9 @@ func c16Scenario(spec c16Spec) *Scenario {
 					panic(err)
 				}
 				l := memnet.NewSListener()
+				if spec.listenerCloseErr {
+					l.CloseErr = errors.New("close: use of closed network connection")
+				}
 				ls := []*memnet.SListener{l}
 				vsched.RegisterObject("server", unsafe.Pointer(srv), unsafe.Sizeof(*srv))
 				vsched.RegisterObject("listener", unsafe.Pointer(l), unsafe.Sizeof(*l))
@@ -348,7 +355,7 @@ func c16Scenario(spec c16Spec) *Scenario {
 				if len(x.Panics) == 0 && !x.Deadlock && !x.StepLimit {
 					if !log.serveDone || log.serves != max(spec.listeners, 1) {
 						fail("serve-did-not-return", fmt.Sprintf("%d of %d Serve calls have returned although the server was closed", log.serves, max(spec.listeners, 1)))
-					} else if log.serveErr != nil && !spec.acceptFault {
+					} else if log.serveErr != nil && !spec.acceptFault && !spec.listenerCloseErr { // (an error of the listener itself may be handed on)
 						fail("serve-error", fmt.Sprintf("Serve returned %v, expected nil", log.serveErr))
 					}
 					if len(closes) != spec.closers+b2i(spec.secondClose) {
